@@ -728,6 +728,8 @@ def bi_len(it, st, args, kwargs, node):
         return VInt(len(v.items))
     if isinstance(v, VHeapDict):
         return VInt(v.size(eng, st))
+    if type(v).__name__ == "VHdr":
+        return VInt(2)
     if isinstance(v, VVal):
         f = z3.Function("len_val", ValS, IntS)
         eng.assume(st, f(v.t) >= 0)
@@ -889,6 +891,19 @@ def bi_any(it, st, args, kwargs, node):
     raise Unsupported(f"{it.site(node)}: any({v!r})")
 
 
+def bi_all(it, st, args, kwargs, node):
+    """all(...) = not any(not ...)"""
+    eng = it.eng
+    v = eng.unbox(st, args[0])
+    if isinstance(v, (VList, VTuple)):
+        return VBool(eng.z_bool(eng.z_and([eng.truthy(st, x) for x in v.items])))
+    if isinstance(v, VGen) and v.name == "comp":
+        fm = v.payload
+        t = eng.truthy(st, fm.E)
+        return VBool(z3.Not(exists_in(fm.src.t, fm.x, z3.And(eng.z_bool(fm.P), z3.Not(eng.z_bool(t))))))
+    raise Unsupported(f"{it.site(node)}: all({v!r})")
+
+
 def count_in(src_t, x, body):
     """z3 Int: number of elements x of src with body(x) (named, unfolded over concat/unit/empty)"""
     body = z3.simplify(body) if not isinstance(body, bool) else z3.BoolVal(body)
@@ -1047,8 +1062,13 @@ def bi_type(it, st, args, kwargs, node):
             return VClass(n)
     if isinstance(v, VRef):
         return VClass(v.cls)
-    st.counter += 1
-    return VClass(f"type!{st.counter}")
+    if isinstance(v, VSeq):
+        return VClass("list")  # symbolic sequences stand for python lists
+    if type(v).__name__ == "VHdr":
+        return VClass("tuple")  # an element of a header list is a (bytes, bytes) pair
+    # the class of an opaque value is not known: refusing is sound, answering with a fresh class name made every
+    # `type(x) is C` test False (found with seed C03-w4-1, whose new fast path was silently treated as dead code)
+    raise Unsupported(f"{it.site(node)}: type() of {v!r}")
 
 
 def bi_repr(it, st, args, kwargs, node):
@@ -1070,6 +1090,7 @@ BUILTIN_FUNCS = {
     "any": bi_any,
     "range": bi_range,
     "hasattr": bi_hasattr,
+    "all": bi_all,
     "next": bi_next,
     "type": bi_type,
     "repr": bi_repr,
